@@ -47,6 +47,8 @@ THEOREMS = [
     "Klong.C20.Ws.ws_null_not_delivered",
     "Klong.C20.encode_sendable",
     "Klong.C20.encode_pinned_fails",
+    "Klong.C20.send_history_at_call",
+    "Klong.C20.deferred_encoding_breaks",
     "Klong.C20.parse_render",
     "Klong.C20.json_roundtrip",
     "Klong.C20.ws_delivers_rendered",
@@ -1131,6 +1133,151 @@ def run_ws_send(ctx, real, hl, drv, items):
             srv.close()
 
 
+# --------------------------------------------------------------------------- websocket: send histories
+
+H_VALUES = [("1", 1), ("2", 2), ("3", 3), ("1+1", 2), ("10", 10), ("11", 11), ('"a"', "a"), ('"é ü"', "é ü"),
+            ("[1 2]", [1, 2]), ('[1 "x"]', [1, "x"]), ("1.5", 1.5)]
+H_KEYS = ["n", "n", "k", "é", "xs"]
+
+
+def gen_send_history(rng, mode):
+    """a program over one dictionary: amend it in place, send it, amend it, send it again, ... and leave
+    it in a later state that is never sent.  `sd` is sent as it is, `so` holds `sd` as a member."""
+    steps = [["set", "n", *rng.choice(H_VALUES[:6])]]
+    sends = 0
+    for _ in range(rng.randrange(4, 9)):
+        if steps[-1][0] == "set" and rng.random() < 0.5:
+            steps.append(["send", rng.choice(["sd", "sd", "so"])])
+            sends += 1
+        else:
+            steps.append(["set", rng.choice(H_KEYS), *rng.choice(H_VALUES)])
+    if sends < 2:
+        steps += [["send", "sd"], ["set", "n", "7", 7], ["send", "sd"]]
+    if steps[-1][0] == "send":
+        steps.append(["set", "n", "99", 99])
+    return dict(kind="ws-send-history", mode=mode, steps=steps)
+
+
+def _start_web(real, expr_get, expr_post):
+    k = real.klong
+    for attempt in range(5):
+        port = free_port()
+        wh = k(f'wh::.web("127.0.0.1:{port}";{expr_get};{expr_post})')
+        t0 = time.time()
+        while not wh.task.done() and time.time() - t0 < WAIT:
+            time.sleep(0.001)
+        if wh.task.done() and not wh.task.cancelled() and wh.task.exception() is None:
+            return wh, port
+        try:
+            asyncio.run_coroutine_threadsafe(wh.shutdown(), real.ioloop).result(WAIT)
+        except Exception:
+            pass
+    raise Infra("could not start a web server on a loopback port")
+
+
+def run_ws_send_history(ctx, real, hl, drv, sc):
+    """the frames the peer records must be the JSON encodings of the value AT THE TIME OF EACH SEND, in
+    order — with the io loop gated while the program runs (mode gated), or with the program running ON
+    the io loop as the body of a .web handler (mode web)"""
+    import aiohttp
+    k = real.klong
+    srv = WsServer(hl)
+    nc = None
+    wh = None
+    case = dict(sc)
+    snaps = []
+
+    def snap(x):
+        snaps.append(kview(x))      # the live value, classified (deep) at the moment of the send
+        return 0
+    k["wssnap"] = snap
+    try:
+        k(".ws.m::{wsrec(0;x;y)}")
+        nc = k(f'wsc::.ws("ws://127.0.0.1:{srv.port}")')
+        if not srv.connected.wait(WAIT):
+            raise Infra("websocket client did not connect")
+        k("sd:::{}")
+        k("so:::{}")
+        k('so,"inner",,sd')
+        k('so,"tag",,"outer"')
+        # ---- the oracle's own reading of the program
+        state, expected, stmts = {}, [], []
+        for st in sc["steps"]:
+            if st[0] == "set":
+                _, key, src, val = st
+                state[key] = val
+                stmts.append(f"sd,{klong_str(key)},,{src}")
+            else:
+                cur = json.loads(json.dumps(state))
+                expected.append(cur if st[1] == "sd" else {"inner": cur, "tag": "outer"})
+                stmts.append(f"wssnap({st[1]})")
+                stmts.append(f"wsc({st[1]})")
+        n0 = len(srv.received)
+        if sc["mode"] == "gated":
+            entered, release = threading.Event(), threading.Event()
+
+            def busy():
+                entered.set()
+                release.wait(WAIT)
+            real.ioloop.call_soon_threadsafe(busy)
+            try:
+                if not entered.wait(WAIT):
+                    raise Infra("io loop did not pick up the gate")
+                for t in stmts:
+                    k(t)
+            finally:
+                release.set()
+        else:
+            k("wspush::{x;" + ";".join(stmts) + ';"pushed"}')
+            k("pusht:::{}")
+            k('pusht,"/push",wspush')
+            wh, port = _start_web(real, "pusht", ":{}")
+            session = hl.call(_mk_session())
+            try:
+                status, body = hl.call(_http(session, "get", f"http://127.0.0.1:{port}/push", {}))
+            finally:
+                hl.call(session.close())
+            if (status, body) != ("200", "pushed"):
+                ctx.oracle_fail("ws:send:from-web-handler", case, ["200", "pushed"], [status, body],
+                                "a route handler that sends over a websocket connection must complete")
+        sync = json.dumps(f"__hsync_{len(srv.received)}__")
+        k(f"wsc({klong_str(json.loads(sync))})")
+        wait_until(lambda: sync in srv.received[n0:])
+        got = [t for t in srv.received[n0:] if t != sync]
+        # ---- property oracle
+        try:
+            vals = [json.loads(t) for t in got]
+            ok = len(vals) == len(expected) and all(same(a, b) for a, b in zip(vals, expected))
+        except ValueError:
+            vals, ok = got, False
+        if not ok:
+            later = len(got) == len(expected)
+            ctx.oracle_fail("ws:send:stale-encoding" if later else "ws:send:history", case, expected, vals,
+                            "each frame must be the JSON encoding of the value at the time of that send "
+                            "(the dictionary is amended in place between and after the sends)")
+        ctx.bump("ws:send-history:" + sc["mode"])
+        ctx.bump("ws:send-history:sends", len(expected))
+        if drv:
+            mt = []
+            for kv in snaps:
+                f = fields(drv.ask(f"send scalars=1 val={jhx(kv)}"))
+                mt.append(unhx(f["text"]) if "text" in f else None)
+            if mt != got:
+                ctx.mismatch("Klong.C20.send (value at call time) vs frames recorded by the peer", case, mt, got)
+        ctx.count(("ws-send-history", json.dumps(sc, sort_keys=True)))
+    finally:
+        try:
+            if wh is not None and wh.runner is not None:
+                try:
+                    asyncio.run_coroutine_threadsafe(wh.shutdown(), real.ioloop).result(WAIT)
+                except Exception:
+                    pass
+            if nc is not None:
+                _with_timeout(lambda: k(".wsc(wsc)"), WAIT)
+        finally:
+            srv.close()
+
+
 # --------------------------------------------------------------------------- JSON text codec vs CPython json
 
 def run_codec(ctx, drv, n):
@@ -1216,7 +1363,8 @@ def run(ctx):
                 "lambdas, a Python callable and a non-function x operation sequences of requests (registered / "
                 "unknown / wrong-method / skipped routes; parameter dictionaries empty, several keys, non-ASCII, "
                 "URL-encoding), handler redefinitions (new body, other arity, non-function) and .webc; websocket "
-                "frame sequences over all JSON kinds with .ws.m redefinition; ws(x) over Python/numpy scalar, "
+                "frame sequences over all JSON kinds with .ws.m redefinition; send histories (amend a dictionary in place, "
+                "send, amend, send ... with the io loop gated, or from a .web handler on the io loop); ws(x) over Python/numpy scalar, "
                 "string, typed/object array and dictionary values; JSON texts (valid and damaged) through the "
                 "codec. distinct = distinct scenarios/values; non-trivial = all but very short codec texts")
     ctx.assumptions += [
@@ -1250,6 +1398,8 @@ def run(ctx):
                     run_ws_recv(ctx, real, hl, drv, c)
                 elif c["kind"] == "ws-send":
                     run_ws_send(ctx, real, hl, drv, [tuple(x) for x in c["items"]])
+                elif c["kind"] == "ws-send-history":
+                    run_ws_send_history(ctx, real, hl, drv, c)
                 ctx.bump("corpus")
             nweb = 40 if quick else 500
             for i in range(nweb):
@@ -1281,6 +1431,13 @@ def run(ctx):
             ctx.sample(dict(kind="ws-send", exprs=[e for e, _ in items[:8]]))
             for i in range(0, len(items), 40):
                 run_ws_send(ctx, real, hl, drv, items[i:i + 40])
+            for i in range(9 if quick else 90):
+                sc = gen_send_history(ctx.rng, "web" if i % 3 == 2 else "gated")
+                if i < 1:
+                    ctx.sample(sc)
+                run_ws_send_history(ctx, real, hl, drv, sc)
+                if len(ctx.oracle_failures) + len(ctx.mismatches) >= 8:
+                    break
             run_codec(ctx, drv, 300 if quick else 6000)
     finally:
         _teardown(real, hl, drv)
@@ -1300,6 +1457,8 @@ def replay(ctx, case):
                 run_ws_recv(ctx, real, hl, drv, c)
             elif kind == "ws-send":
                 run_ws_send(ctx, real, hl, drv, [(c["expr"], c["expect"])])
+            elif kind == "ws-send-history":
+                run_ws_send_history(ctx, real, hl, drv, c)
             elif kind == "codec":
                 r = drv.ask("parse text=" + hx(c["text"])) if drv else None
                 print("replay codec:", c["text"], "->", r)
